@@ -369,7 +369,7 @@ pub fn judge_c17(b: &Built, bad: &mut Vec<Bad>, stats: &mut BTreeMap<String, u64
                     // methods: re-exposed + own wrappers, then virtual wrappers
                     let mut expected_methods: BTreeMap<String, (bool, Vec<String>)> = BTreeMap::new();
                     for me in env.associated(&path) {
-                        if me.name.starts_with('_') {
+                        if me.name.starts_with('_') && me.kind == MKind::Own {
                             continue;
                         }
                         expected_methods.insert(me.name.clone(), (expect_pub(me.func.visibility), doc_lines(&me.func.attributes)));
@@ -585,7 +585,9 @@ pub fn judge_c14(
             }
         }
         for bi in crate::refmodel::BUILTIN_NAMES {
-            if ef.struct_(bi).is_some() {
+            // (a module may declare an item of its own with such a name; that one is emitted)
+            let declared = m.definitions.iter().any(|d| d.name.as_str() == *bi);
+            if ef.struct_(bi).is_some() && !declared {
                 bad.push(("C14/builtin-emitted".into(), format!("`{rel}` defines built-in `{bi}`")));
             }
         }
